@@ -49,7 +49,7 @@ m = {
     ],
     "checks": checks,
     "not_applicable": na,
-    "notes": "Model-based verification with an explicit TLA+ specification (spec/), see DESIGN.md. Four genuine defects were repaired by fix: commits in /repo (known_findings.txt).",
+    "notes": "Model-based verification with an explicit TLA+ specification (spec/), see DESIGN.md. Four genuine defects were repaired by fix: commits in /repo and a fifth is recorded as a known finding of C11 (known_findings.txt, DESIGN.md section 0.4). bin/check EXTRA runs the parts of the specification beyond the listed properties (Api.tla, AsyncAbs.tla).",
 }
 json.dump(m, open("/verif/MANIFEST.json", "w"), indent=1)
 print("MANIFEST.json: %d checks, %d not claimed" % (len(checks), len(na)))
